@@ -233,8 +233,36 @@ pub fn apply_fault(dirs: &Dirs, threads: &[String], versions: &[DirImage], fault
         }
     }
     if did.is_empty() {
-        None
-    } else {
-        Some(did.join(","))
+        return None;
     }
+    // Mark each affected file whose resulting content could pass for a well-formed but incomplete
+    // cache ("stale-like"): a missing file (re-created piecemeal by later appends), a JSONL file
+    // that is empty or ends at a line boundary with every line parsing, any shortened/older binary index.
+    let marked: Vec<String> = did
+        .into_iter()
+        .map(|label| {
+            let suffix = label.find('.').map(|i| label[i..].to_string()).unwrap_or_default();
+            let path = dir.join(format!("{thread}{suffix}"));
+            let stale_like = match std::fs::read(&path) {
+                Err(_) => true,
+                Ok(b) => {
+                    if suffix.ends_with(".bin") {
+                        !label.starts_with("garbage")
+                    } else {
+                        b.is_empty()
+                            || (b.last() == Some(&b'\n')
+                                && b.split(|c| *c == b'\n')
+                                    .filter(|l| !l.is_empty())
+                                    .all(|l| serde_json::from_slice::<serde_json::Value>(l).is_ok()))
+                    }
+                }
+            };
+            if stale_like {
+                format!("{label}!stale")
+            } else {
+                label
+            }
+        })
+        .collect();
+    Some(marked.join(","))
 }
